@@ -28,7 +28,7 @@ ASSUMPTIONS = [
     "schema depth <= 5, <= 40 nodes; data <= ~64 KiB per value",
 ]
 SENTINEL = b"\xa5SENTINEL\x5a\x00\x01\x02\x03"
-N = {"quick": 48000, "thorough": 1600000}
+N = {"quick": 160000, "thorough": 2400000}
 TIME_LIMIT = {"quick": 40, "thorough": 480}
 SHARDS = 16
 REACH = {
